@@ -38,6 +38,12 @@ CLAIMED = {
             "BASE/OTHER/THIS, clean merges produce the region-wise merged text, and the unchanged-side / identical-change "
             "laws hold. Real trees, helper files on disk and conflict resolution are outside.",
             "the compiled patience matcher is replaced by the alignment of the edit scripts; trees / transform are stubs"),
+    "C22": ("numeric revision specifiers (kernel)",
+            "RevisionSpec.from_string(...).in_history(branch) for revno:n, bare n, negative n, last:n, before:n, "
+            "before:revno:n, dotted revno:a.b.c and arbitrary short malformed text after 'revno:', with SYMBOLIC n, symbolic "
+            "history length and symbolic text, against the definitions in the specifier help. Dotted revno maps, "
+            "merge-sorted numbering (compiled) and the revid:/tag:/ancestor:/mainline:/date: specifiers are outside.",
+            "branch is a stub with a symbolic number of mainline revisions"),
     "C24": ("tag reconciliation kernel",
             "Decides the reconciliation sentence for the real _reconcile_tags with symbolic tag names and revision ids "
             "(<= 2/3 tags per dictionary), overwrite on/off, arbitrary selector. Persistence of tag dictionaries (bencode, "
